@@ -1,8 +1,14 @@
 """C10 -- Voigt average = volume-weighted mean of rotated single-crystal stiffnesses."""
 from __future__ import annotations
 
+import copy
+import os
+import pickle
+import tempfile
+
 import numpy as np
 
+import argguard
 import common
 import proofs
 import gen_tensors as G
@@ -21,8 +27,12 @@ OL, EN = 0, 1
 # --------------------------------------------------------------------------
 # cases: plain data (no pydrex objects), so that they can be stored in replay files
 # --------------------------------------------------------------------------
-def gen_case(rng, kind="valid", big=False):
-    asm = [(OL,), (EN,), (OL, EN), (EN, OL)][rng.integers(0, 4)]
+ASMS = [(OL,), (EN,), (OL, EN), (EN, OL)]
+
+
+def gen_case(rng, kind="valid", big=False, asm=None):
+    drawn = ASMS[rng.integers(0, 4)]
+    asm = drawn if asm is None else tuple(asm)       # the draw is made either way: the other streams stay as they were
     nsteps = int(rng.integers(1, 5))
     ng = int(rng.integers(1, 31)) if not big else 300
     # minerals: every phase of the assemblage at least once, in random order, sometimes a phase twice
@@ -76,10 +86,79 @@ def _present(a, kind):
     return np.array(a) if kind in (None, "float64") else G.present(a, kind)
 
 
+# --------------------------------------------------------------------------
+# ordinal representations: the SAME phase handed over as another object
+# --------------------------------------------------------------------------
+# `Mineral.phase` is annotated `int` and documented as "ordinal number of the mineral phase"; MineralPhase is an IntEnum.
+# The objects that really occur there: the enum member (documented examples), a plain Python int, a NumPy integer of any
+# width (`Mineral.save` writes the ordinals as np.uint8, `Mineral.from_file` / `Mineral.load` put that np.uint8 scalar
+# into the restored object), the member again after pickle / deepcopy.  All of them compare equal, hash equal and index a
+# list alike -- but they are not the same object and not of the same type.  C10 speaks of "each grain's single-crystal
+# tensor" of its phase: which phase a mineral has is a matter of the ordinal's VALUE.
+ORD_CALLER = ("pyint", "np.uint8", "np.int8", "np.int32", "np.int64", "np.uint64", "np.intp")   # built by the caller
+ORD_RESTORED = ("from_file", "from_file_postfix", "load", "load_postfix", "pickle", "deepcopy")  # restored by the package / stdlib
+ORD_MIXED = ("mixed_file", "mixed_int")       # first mineral restored from a file, the others fresh / representations alternate
+PHASE_KINDS = ORD_CALLER + ORD_RESTORED + ORD_MIXED
+ASM_ITEM_KINDS = ("pyint", "np.uint8", "np.int64")
+ORD_WHATS = ("phase", "assemblage_items", "ordinals")
+
+
+def _ordinal(p, kind):
+    """the phase ordinal `p` (0 | 1) as an object of the representation `kind`"""
+    import pydrex.core as core
+    if kind in (None, "enum"):
+        return core.MineralPhase(int(p))
+    if kind == "pyint":
+        return int(p)
+    if kind.startswith("np."):
+        return getattr(np, kind[3:])(int(p))
+    raise ValueError(f"unknown ordinal representation {kind!r}")
+
+
+def _phase_repr(mm, kind, k):
+    """the mineral `mm` (k-th of the list) with the same texture and the same phase, the phase ordinal being held in the
+    representation `kind` (PHASE_KINDS): set by the caller, or whatever a save / load, pickle or deepcopy round trip leaves"""
+    import pydrex.minerals as M
+    if kind == "mixed_file":
+        kind = "from_file" if k == 0 else "enum"
+    elif kind == "mixed_int":
+        kind = ("pyint", "enum", "np.uint8")[k % 3]
+    if kind in (None, "enum"):
+        return mm
+    if kind in ORD_CALLER:
+        mm.phase = _ordinal(mm.phase, kind)
+        return mm
+    if kind == "pickle":
+        return pickle.loads(pickle.dumps(mm))
+    if kind == "deepcopy":
+        return copy.deepcopy(mm)
+    postfix = f"m{k}" if kind.endswith("_postfix") else None
+    with tempfile.TemporaryDirectory(prefix="c10_") as tmp:
+        path = os.path.join(tmp, "cpo.npz")
+        mm.save(path, postfix=postfix)
+        if kind.startswith("from_file"):
+            return M.Mineral.from_file(path, postfix=postfix)
+        if kind.startswith("load"):
+            new = M.Mineral(n_grains=4)            # a default (olivine) object; load() replaces phase, texture, n_grains
+            new.load(path, postfix=postfix)
+            return new
+    raise ValueError(f"unknown ordinal representation {kind!r}")
+
+
+def may_refuse(what, kind):
+    """presentations that may be refused loudly (G.REFUSAL) instead of being averaged: integer arrays / nested lists (numba
+    has no typing for them) and ordinals the CALLER built as plain / NumPy integers.  What the package itself restores
+    (file, pickle, deepcopy) must be averaged."""
+    if what in ORD_WHATS:
+        return kind in ORD_CALLER
+    return kind in G.PRES_INTEGER or kind in ("list", "int")
+
+
 def build(c):
     """pydrex objects of the plain-data case `c`; `c["pres"]` (optional) hands the SAME numbers over in another
     dtype / memory layout / container: keys tensors, orientations, fractions (a G.PRES_KINDS kind each),
-    phis ('list' | 'tuple' | 'array' | 'float32' | 'int'), minerals / assemblage ('list' | 'tuple')"""
+    phis ('list' | 'tuple' | 'array' | 'float32' | 'int'), minerals / assemblage ('list' | 'tuple'),
+    phase (PHASE_KINDS: representation of Mineral.phase), assemblage_items (ASM_ITEM_KINDS: of the assemblage's entries)"""
     import logging
     import pydrex.core as core
     import pydrex.minerals as M
@@ -87,15 +166,15 @@ def build(c):
     L.CONSOLE_LOGGER.setLevel(logging.ERROR)
     pres = c.get("pres") or {}
     ms = []
-    for m in c["minerals"]:
+    for k, m in enumerate(c["minerals"]):
         ph = core.MineralPhase(m["phase"])
         fab = core.MineralFabric.olivine_A if m["phase"] == OL else core.MineralFabric.enstatite_AB
         mm = M.Mineral(phase=ph, fabric=fab, regime=core.DeformationRegime.matrix_dislocation, n_grains=4)
         mm.n_grains = m["n_grains"]
         mm.orientations = [_present(o, pres.get("orientations")) for o in m["orientations"]]
         mm.fractions = [_present(f, pres.get("fractions")) for f in m["fractions"]]
-        ms.append(mm)
-    asm = [core.MineralPhase(p) for p in c["assemblage"]]
+        ms.append(_phase_repr(mm, m.get("repr") or pres.get("phase"), k))     # m["repr"]: this mineral's own representation (mixed lists)
+    asm = [_ordinal(p, pres.get("assemblage_items")) for p in c["assemblage"]]
     st = M.StiffnessTensors(olivine=np.array(c["tensors"][0]), enstatite=np.array(c["tensors"][1]))
     if pres.get("tensors"):
         st.olivine, st.enstatite = _present(c["tensors"][0], pres["tensors"]), _present(c["tensors"][1], pres["tensors"])
@@ -129,7 +208,7 @@ def encode(c):
     return {"assemblage": c["assemblage"], "phis": [hx(x) for x in c["phis"]],
             "tensors": [[hx(x) for x in t.reshape(-1)] for t in c["tensors"]], "kind": c.get("kind", ""),
             "pres": c.get("pres"),
-            "minerals": [{"phase": m["phase"], "n_grains": m["n_grains"],
+            "minerals": [{"phase": m["phase"], "n_grains": m["n_grains"], "repr": m.get("repr"),
                           "orientations": [[hx(x) for x in o.reshape(-1)] for o in m["orientations"]],
                           "fractions": [[hx(x) for x in f] for f in m["fractions"]]} for m in c["minerals"]]}
 
@@ -139,7 +218,7 @@ def decode(d):
     return dict(assemblage=d["assemblage"], phis=np.array([u(x) for x in d["phis"]]),
                 tensors=[np.array([u(x) for x in t]).reshape(6, 6) for t in d["tensors"]], kind=d.get("kind", ""),
                 pres=d.get("pres"),
-                minerals=[dict(phase=m["phase"], n_grains=m["n_grains"],
+                minerals=[dict(phase=m["phase"], n_grains=m["n_grains"], repr=m.get("repr"),
                                orientations=[np.array([u(x) for x in o]).reshape(-1, 3, 3) for o in m["orientations"]],
                                fractions=[np.array([u(x) for x in f]) for f in m["fractions"]]) for m in d["minerals"]])
 
@@ -211,6 +290,7 @@ def oracle(c):
     # one aligned grain
     p = c["minerals"][0]["phase"]
     one = dict(assemblage=[p], phis=np.array([1.0]), tensors=c["tensors"],
+               pres={k: v for k, v in pres.items() if k in ("phase", "assemblage_items")},   # same representation of the ordinals
                minerals=[dict(phase=p, n_grains=1, orientations=[np.eye(3)[None]], fractions=[np.array([1.0])])])
     r5 = impl(one)
     if r5[0] != "OK" or np.abs(r5[1][0] - np.array(c["tensors"][p])).max() > tol * sc:
@@ -396,11 +476,11 @@ def fails_of(c):
     if k.startswith("presentation:"):
         # the property read on another presentation of the same numbers; a presentation numba / NumPy has no
         # typing for may be refused loudly
-        kind = k.split(":")[2]
+        what, kind = k.split(":")[1:3]
         try:
             build_and_call(c)
         except Exception as e:  # noqa: BLE001
-            if type(e).__name__ in G.REFUSAL and (kind in G.PRES_INTEGER or kind in ("list", "int")):
+            if type(e).__name__ in G.REFUSAL and may_refuse(what, kind):
                 return []
         return oracle(c)
     return oracle(c) if k == "valid" else oracle_rejects(c)
@@ -472,15 +552,28 @@ PRES_PLAN = [  # (what is presented, kind, how the numbers are chosen so that th
     ("orientations", k) for k in ("int64", "int32", "float32", "fortran", "strided", "reversed", "readonly", "list")] + [
     ("fractions", k) for k in ("int64", "int32", "float32", "strided", "reversed", "readonly", "list")] + [
     ("phis", k) for k in ("tuple", "array", "float32", "int")] + [("minerals", "tuple"), ("assemblage", "tuple"),
-    ("all", "int64"), ("all", "float32"), ("all", "fortran")]
+    ("all", "int64"), ("all", "float32"), ("all", "fortran")] + [
+    # ordinal representations (see PHASE_KINDS): of Mineral.phase, of the assemblage's entries, of both
+    ("phase", k) for k in PHASE_KINDS] + [("assemblage_items", k) for k in ASM_ITEM_KINDS] + [
+    ("ordinals", k) for k in ASM_ITEM_KINDS]
 
 
-def gen_pres_case(rng, what, kind):
+def gen_pres_case(rng, what, kind, asm=None):
     """a valid case whose numbers are exactly representable in the presentation, + c['pres']"""
-    c = gen_case(rng, "valid")
+    c = gen_case(rng, "valid", asm=asm)
     ns = len(c["minerals"][0]["orientations"])
+    if what in ORD_WHATS and kind in ORD_MIXED:
+        # representations can only be mixed among several minerals: at least three (phases of the assemblage in turn)
+        n0 = c["minerals"][0]["n_grains"]
+        while len(c["minerals"]) < 3:
+            ph = c["assemblage"][len(c["minerals"]) % len(c["assemblage"])]
+            c["minerals"].append(dict(phase=int(ph), n_grains=n0, orientations=[np.array([G.haar(rng) for _ in range(n0)]) for _ in range(ns)],
+                                      fractions=[rng.dirichlet(np.ones(n0)) for _ in range(ns)]))
+        # the representation belongs to the mineral, not to its position: reordering the list (oracle) keeps it
+        for k, m in enumerate(c["minerals"]):
+            m["repr"] = ("from_file" if k == 0 else "enum") if kind == "mixed_file" else ("pyint", "enum", "np.uint8")[k % 3]
     ng = min(c["minerals"][0]["n_grains"], 6)
-    integer = kind in G.PRES_INTEGER or kind == "int"
+    integer = what not in ORD_WHATS and (kind in G.PRES_INTEGER or kind == "int")
     single = kind == "float32"
     for m in c["minerals"]:
         m["n_grains"] = ng
@@ -508,7 +601,7 @@ def gen_pres_case(rng, what, kind):
             c["phis"] = np.array([float(v) for v in rng.integers(0, 3, size=len(c["phis"]))])
         elif kind == "float32":
             c["phis"] = f32(c["phis"])
-    keys = ("tensors", "orientations", "fractions") if what == "all" else (what,)
+    keys = {"all": ("tensors", "orientations", "fractions"), "ordinals": ("phase", "assemblage_items")}.get(what, (what,))
     c["pres"] = {k: kind for k in keys}
     c["kind"] = f"presentation:{what}:{kind}"
     return c
@@ -517,28 +610,54 @@ def gen_pres_case(rng, what, kind):
 def gen_pres_cases(chk, tier):
     rng = np.random.default_rng(chk.seed + 11)
     reps = 1 if tier == "quick" else 12
-    return [gen_pres_case(rng, w, k) for _ in range(reps) for w, k in PRES_PLAN]
+    cases = []
+    for r in range(reps):
+        for j, (w, k) in enumerate(PRES_PLAN):
+            # ordinal representations: assemblage from a fixed cycle (the family meets all four on every seed), others drawn
+            cases.append(gen_pres_case(rng, w, k, asm=ASMS[(j + r) % 4] if w in ORD_WHATS else None))
+    # ... and once more per repetition on a two-phase aggregate (both orders), where dropping / confusing one phase shows
+    ords = [(w, k) for w, k in PRES_PLAN if w in ORD_WHATS]
+    rng2 = np.random.default_rng(chk.seed + 17)
+    for r in range(reps):
+        for j, (w, k) in enumerate(ords):
+            cases.append(gen_pres_case(rng2, w, k, asm=ASMS[2 + (j + r) % 2]))
+    return cases
 
 
 def compare_pres(chk, cases):
     """implementation on the presented objects vs the extracted model on the same numbers (1e-9; 1e-5 where float32
-    arithmetic is involved), or a loud refusal of an integer / list presentation (G.REFUSAL); never another value"""
+    arithmetic is involved), or a loud refusal of an integer / list presentation (G.REFUSAL; may_refuse); never another value.
+    The model is a pure function of the numbers: the call must also leave every array reachable from its arguments alone
+    (argguard.guarded), and the ordinal objects the caller put into the minerals / the assemblage must still be there."""
+    import pydrex.minerals as M
     mres = common.run_model([model_line(c) for c in cases], group=G.GROUP)
     bad = []
     hist = chk.cov.setdefault("presentation_histogram", {})
+    ohist = chk.cov.setdefault("ordinal_representation_histogram", {})
     for c, m in zip(cases, mres):
         what, kind = c["kind"].split(":")[1:]
+        faults = []
         try:
             ms, asm, phis, st = build(c)
-            import pydrex.minerals as M
-            r = ("OK", np.asarray(M.voigt_averages(ms, asm, phis, st), dtype=float))
+            held = [x.phase for x in ms] + list(asm)
+            if what in ORD_WHATS:
+                # what the call really gets: types of the ordinal objects (a file round trip leaves np.uint8, pickle the member)
+                for okey in (f"{what}:{kind}|Mineral.phase={'+'.join(sorted({type(x.phase).__name__ for x in ms}))}"
+                             f"|assemblage items={'+'.join(sorted({type(x).__name__ for x in asm}))}",
+                             f"assemblage={tuple(c['assemblage'])}", f"minerals={len(ms)}"):
+                    ohist[okey] = ohist.get(okey, 0) + 1
+            res, faults = argguard.guarded(M.voigt_averages, (ms, asm, phis, st))
+            if any(a is not b for a, b in zip(held, [x.phase for x in ms] + list(asm))):
+                faults.append("the call replaced a phase ordinal object of its arguments")
+            r = ("OK", np.asarray(res, dtype=float))
         except Exception as e:  # noqa: BLE001
             r = ("ERR", type(e).__name__, str(e)[:200])
+        bad += [(c, f"{what}:{kind}: {ft}") for ft in faults]
         chk.note_case(("voigt-presentation", c["kind"], model_line(c)), nontrivial=(r[0] == "OK"),
                       sample={"kind": c["kind"], "impl": r[1] if r[0] == "ERR" else [float(v) for v in r[1].reshape(-1)[:3]]})
         key = f"{what}:{kind}"
         if r[0] == "ERR":
-            refused = r[1] in G.REFUSAL and (kind in G.PRES_INTEGER or kind in ("list", "int"))
+            refused = r[1] in G.REFUSAL and may_refuse(what, kind)
             hist[key] = "refused" if refused else "raised"
             if not refused:
                 bad.append((c, f"{key}: raised {r[1]}: {r[2]}"))
@@ -553,6 +672,7 @@ def compare_pres(chk, cases):
             hist[key] = "DIFFERENT VALUE"
             bad.append((c, f"{key}: component {idx}: implementation {r[1].reshape(-1)[idx]!r} vs model on the same numbers {m[1][idx]!r}"))
     chk.cov["presentation_cases"] = len(cases)
+    chk.cov["ordinal_representation_cases"] = sum(1 for c in cases if c["kind"].split(":")[1] in ORD_WHATS)
     return bad
 
 
@@ -675,7 +795,12 @@ def run(chk):
                        "PRESENTATION stream: the same numbers with another dtype / layout / container -- stiffness attributes int64 / int32 / float32 / Fortran / strided / reversed / read-only "
                        "(generic orientations), orientations int (signed permutations) / float32 / Fortran / strided / reversed / read-only / nested list, fractions int / float32 / strided / "
                        "reversed / read-only / list, phase_fractions tuple / ndarray / np.float32 / int, minerals and assemblage as tuples, everything at once: same value as the model on the "
-                       "same numbers or a loud refusal; MAGNITUDE stream: stiffness constants in units of 2^k (k = -60 .. 60) and with one coupling constant of 3e-11 / 2^-40 / 1e-15 / 1e12, "
+                       "same numbers or a loud refusal (every such call is also guarded: no array reachable from the arguments is modified); "
+                       "ORDINAL REPRESENTATIONS (part of the presentation stream; coverage.ordinal_representation_histogram): the same phase held as another object -- Mineral.phase as "
+                       "plain int / np.uint8 / int8 / int32 / int64 / uint64 / intp, as left by Mineral.save + Mineral.from_file / Mineral.load (with and without postfix: np.uint8), "
+                       "by pickle / deepcopy (the member), one restored mineral among fresh ones, alternating representations; the assemblage's entries as plain int / np.uint8 / np.int64; both; "
+                       "assemblages from a fixed cycle (all four) + every representation once more on a two-phase aggregate; what the package restores itself may not be refused; "
+                       "MAGNITUDE stream: stiffness constants in units of 2^k (k = -60 .. 60) and with one coupling constant of 3e-11 / 2^-40 / 1e-15 / 1e12, "
                        "tolerance relative to the size of the constants (no absolute floor)")
     bad = []
     if br.drivers.get(G.GROUP, 1) is None:
